@@ -838,8 +838,22 @@ func (r *run) judgeC16(revName, kind string, rev map[string]any, sp Spec, p *Pkg
 	// (2) after a successful reconcile: ownership matches the revision's role
 	for _, k := range sp.ObjectKeys() {
 		parts := strings.SplitN(k, "/", 2)
-		m := r.obj(parts[0], parts[1])
+		// the object as this reconcile left it (its last write of it, or what it
+		// last read): somebody may have deleted it and another revision created
+		// it again since
+		var m map[string]any
+		for i := len(mine) - 1; i >= 0; i-- {
+			e := mine[i]
+			if e.Key.Kind == parts[0] && e.Key.Name == parts[1] && e.Err == nil && e.Injected == "" && !e.DryRun && e.After != nil {
+				m = e.After
+				break
+			}
+		}
 		if m == nil {
+			continue
+		}
+		if cur := r.obj(parts[0], parts[1]); cur == nil || (&unstructured.Unstructured{Object: cur}).GetUID() != (&unstructured.Unstructured{Object: m}).GetUID() {
+			w.S.Probe("package-object-replaced-since-reconcile")
 			continue
 		}
 		var isOwner, isController, pkgOwner, pkgController bool
@@ -865,7 +879,7 @@ func (r *run) judgeC16(revName, kind string, rev map[string]any, sp Spec, p *Pkg
 			// deactivation keeps ownership: an object this revision owned when the
 			// reconcile started is still owned by it afterwards
 			if !isOwner && len(mine) > 0 {
-				if before := w.Store.StateAt(mine[0].Seq, simapi.ObjKey{Group: kindGroup[parts[0]], Kind: parts[0], Name: parts[1]}); before != nil {
+				if before := w.Store.StateAt(mine[0].Seq, simapi.ObjKey{Group: kindGroup[parts[0]], Kind: parts[0], Name: parts[1]}); before != nil && (&unstructured.Unstructured{Object: before}).GetUID() == (&unstructured.Unstructured{Object: m}).GetUID() {
 					for _, o := range (&unstructured.Unstructured{Object: before}).GetOwnerReferences() {
 						if o.UID == revUID {
 							w.S.Violate("C16/inactive-revision-lost-ownership", fmt.Sprintf("inactive revision %s no longer owns %s", revName, k))
